@@ -14,7 +14,8 @@ RULE = ("true positions = breakpoint-directed latitude x longitude alphabets (as
         "zone size in each axis independently (49 references; thorough 13x13), references wrapped to [-180,180) and "
         "clipped to |lat|<=90; every reference must give the encoder's position (metamorphic: all equal); "
         "distinct = distinct (surface, parity, yz, xz)")
-ASSUMPTIONS = ["zone size in longitude is taken at the encoded latitude (Dlon_i of the encoder)",
+ASSUMPTIONS = ["re-entrancy: a decode suspended at a source-line boundary while another decode runs to completion (one preemption) must give its isolated answer",
+               "zone size in longitude is taken at the encoded latitude (Dlon_i of the encoder)",
                "positions within 1e-9 deg of an NL transition are skipped (either NL admissible)",
                "longitude compared modulo 360 as the property states"]
 
@@ -168,7 +169,37 @@ def w_guard(_):
     return acc.res()
 
 
+def inter_cases():
+    def fr(lat, lon, i, surface, aa):
+        e = C.encode(Fr(lat).limit_denominator(10 ** 6), Fr(lon).limit_denominator(10 ** 6), i, surface)
+        me = C.me_surface(7, 12, 1, 40, i, e["yz"], e["xz"]) if surface else C.me_airborne(11, 0xC38, i, e["yz"], e["xz"])
+        return F.es(me, aa, 5, 17)
+    return [(fr(52.25, 4.76, 0, False, 0x4840D6), 52.0, 4.0), (fr(-33.4, 151.2, 1, False, 0x7C1234), -33.0, 151.0),
+            (fr(10.1, -75.5, 1, False, 0x0D0001), 10.0, -75.0), (fr(52.31, 4.76, 0, True, 0x4840D6), 52.3, 4.7),
+            (fr(-33.94, 151.17, 1, True, 0x7C1234), -33.9, 151.2), (fr(40.64, -73.78, 0, True, 0xA00001), 40.6, -73.8)]
+
+
+def w_inter(_):
+    """re-entrancy (preemption bound 1, engine.interleave): a decode with reference suspended before each of its source
+    lines while the decode of another aircraft's frame (airborne or surface, either parity) runs to completion."""
+    from engine.util import interleaved_ok
+    acc = Acc()
+    cases = inter_cases()
+    for fn in ("position_with_ref", "airborne_position_with_ref", "surface_position_with_ref"):
+        f = getattr(pms.adsb, fn)
+        own = cases[:3] if fn.startswith("air") else cases[3:] if fn.startswith("surf") else cases
+        bad_, n = interleaved_ok(f, own)
+        acc.n += n
+        acc.c["interleaved_schedules"] += n
+        for a_, nm, k_ in bad_:
+            acc.bad("withref:answer_changes_when_another_call_runs_in_between", {"inter": fn, "a": list(a_), "preempt_before_line_event": k_})
+        acc.out.add(("inter", fn))
+    return acc.res()
+
+
 def w_any(t):
+    if t[0] == "i":
+        return w_inter(None)
     if t[0] == "c":
         return w_corner(t[1])
     return w_guard(None) if t[0] == "g" else w_lats(t[1])
@@ -176,7 +207,7 @@ def w_any(t):
 
 def run(ctx):
     offs = OFF13 if ctx.thorough else OFF7
-    tasks = [("g", None), ("c", False), ("c", True)]
+    tasks = [("g", None), ("c", False), ("c", True), ("i", None)]
     for surface in (False, True):
         lats = S.lat_alphabet(surface, ctx.thorough)
         if not ctx.thorough:
@@ -187,6 +218,8 @@ def run(ctx):
 
 
 def replay(case):
+    if "inter" in case:
+        return [(s_, c_) for s_, c_ in w_inter(None)["viols"] if c_["inter"] == case["inter"]][:1]
     if "totality" in case:
         m_, la, lo = case["totality"]
         r_ = call(pms.adsb.position_with_ref, m_, la, lo)
